@@ -369,6 +369,10 @@ func run(r *mc.Run) {
 			Seconds int32  `json:"seconds"`
 		}
 		r.ReplayCase(&probe)
+		if probe.Part == "units" {
+			unitsClause(r)
+			return
+		}
 		if probe.Part == "filer" {
 			filerClause(r) // cheap: the whole clause again
 			return
@@ -395,6 +399,7 @@ func run(r *mc.Run) {
 
 	if os.Getenv("VERIF_CHILD_PHASE") == "" { // workers only run the volume histories
 		filerClause(r)
+		unitsClause(r)
 	}
 
 	const shards = 16
